@@ -1,6 +1,7 @@
 import StoneVerif.Model.Rt.SpecC08
 import StoneVerif.Model.Rt.Ir
 import StoneVerif.Model.Rt.Decode
+import StoneVerif.Model.Rt.WF
 /-! Helper lemmas for C08: the validators against the shallow acceptance predicate `satB`. -/
 set_option linter.unusedSimpArgs false
 set_option linter.unusedVariables false
@@ -102,5 +103,330 @@ theorem validateDict_spec (E : Ext) (env : Env) (kt vt : PTy) : (kvs : List (PyV
     · obtain ⟨s, hs⟩ := b1.exists
       simp [Good, satDict, validateDict, normDict, a1, hs, bind, Except.bind, pure, Except.pure]
 end
+
+/-! ### the normalised value is again acceptable, and normalising is idempotent -/
+
+def NormOk (E : Ext) (env : Env) (t : PTy) (v : PyVal) : Prop :=
+  satB E env t v = true → satB E env t (normOf E t v) = true ∧ normOf E t (normOf E t v) = normOf E t v
+
+theorem normList_length (E t) (xs : List PyVal) : (normList E t xs).length = xs.length := by
+  induction xs with
+  | nil => simp [normList]
+  | cons x xs ih => simp [normList, ih]
+
+theorem norm_leaf (E env t) (v : PyVal) (h1 : ∀ xs, v ≠ .list xs)  (h2 : ∀ xs, v ≠ .tuple xs) (h3 : ∀ xs, v ≠ .dict xs) : NormOk E env t v := by
+  cases hn : t.flags.nullable <;> cases v <;> simp at h1 h2 h3 <;> cases t <;> simp only [PTy.flags] at hn <;>
+  simp [hn, NormOk, satB, normOf, isNoneV, validPrim, structSat, unionSat, PTy.flags] <;> (try grind [normOf, satB, validPrim, PTy.flags, isNoneV])
+
+mutual
+theorem norm_sat (E : Ext) (env : Env) (t : PTy) : (v : PyVal) → NormOk E env t v
+  | .list xs => by
+    have ih := fun item => normList_sat E env item xs
+    have hl := fun item => normList_length E item xs
+    cases hn : t.flags.nullable <;> cases t <;> simp only [PTy.flags] at hn <;>
+    simp [hn, hl, NormOk, satB, normOf, isNoneV, validPrim, structSat, unionSat, PTy.flags]
+    all_goals
+      rename_i item lo hi
+      have h := ih item
+      grind
+  | .tuple xs => by
+    have ih := fun item => normList_sat E env item xs
+    have hl := fun item => normList_length E item xs
+    cases hn : t.flags.nullable <;> cases t <;> simp only [PTy.flags] at hn <;>
+    simp [hn, hl, NormOk, satB, normOf, isNoneV, validPrim, structSat, unionSat, PTy.flags]
+    all_goals
+      rename_i item lo hi
+      have h := ih item
+      grind
+  | .dict kvs => by
+    have ih := fun kt vt => normDict_sat E env kt vt kvs
+    cases hn : t.flags.nullable <;> cases t <;> simp only [PTy.flags] at hn <;>
+    simp [hn, NormOk, satB, normOf, isNoneV, validPrim, structSat, unionSat, PTy.flags]
+    all_goals
+      rename_i kt vt
+      exact ih kt vt
+  | .none => norm_leaf E env t _ (by simp) (by simp) (by simp)
+  | .bool _ => norm_leaf E env t _ (by simp) (by simp) (by simp)
+  | .int _ => norm_leaf E env t _ (by simp) (by simp) (by simp)
+  | .flt _ => norm_leaf E env t _ (by simp) (by simp) (by simp)
+  | .str _ => norm_leaf E env t _ (by simp) (by simp) (by simp)
+  | .bytes _ => norm_leaf E env t _ (by simp) (by simp) (by simp)
+  | .ts _ _ => norm_leaf E env t _ (by simp) (by simp) (by simp)
+  | .struct _ _ => norm_leaf E env t _ (by simp) (by simp) (by simp)
+  | .union _ _ _ => norm_leaf E env t _ (by simp) (by simp) (by simp)
+  | .other _ => norm_leaf E env t _ (by simp) (by simp) (by simp)
+theorem normList_sat (E : Ext) (env : Env) (t : PTy) : (xs : List PyVal) → satList E env t xs = true →
+    satList E env t (normList E t xs) = true ∧ normList E t (normList E t xs) = normList E t xs
+  | [] => by simp [satList, normList]
+  | x :: xs => by
+    have h1 := norm_sat E env t x
+    have h2 := normList_sat E env t xs
+    simp [satList, normList, NormOk] at h1 h2 ⊢
+    grind
+theorem normDict_sat (E : Ext) (env : Env) (kt vt : PTy) : (kvs : List (PyVal × PyVal)) → satDict E env kt vt kvs = true →
+    satDict E env kt vt (normDict E kt vt kvs) = true ∧ normDict E kt vt (normDict E kt vt kvs) = normDict E kt vt kvs
+  | [] => by simp [satDict, normDict]
+  | (k, x) :: rest => by
+    have h1 := norm_sat E env kt k
+    have h2 := norm_sat E env vt x
+    have h3 := normDict_sat E env kt vt rest
+    simp [satDict, normDict, NormOk] at h1 h2 h3 ⊢
+    grind
+end
+
+/-! ### validate_type_only -/
+
+theorem validateTypeOnly_eq (env : Env) (t : PTy) (v : PyVal) :
+    (typeOnlyB env t v = true ∧ validateTypeOnly env t v = .ok ()) ∨
+    (typeOnlyB env t v = false ∧ isUserTy t = true ∧ IsVerr (validateTypeOnly env t v)) ∨
+    (typeOnlyB env t v = false ∧ isUserTy t = false ∧ validateTypeOnly env t v = .error (.crash "AttributeError")) := by
+  cases hn : t.flags.nullable <;> cases t <;> simp only [PTy.flags] at hn <;> cases v <;>
+  simp [hn, typeOnlyB, classSat, validateTypeOnly, isUserTy, isNoneV, unionSat, structTypeOk, unionTypeOk, PTy.flags, crash] <;>
+  grind
+
+/-! ### slots -/
+
+theorem lookupSlot_setSlot (n : String) (x : PyVal) (slots : List (String × PyVal)) :
+    lookupSlot n (setSlot n x slots) = some x := by
+  induction slots with
+  | nil => simp [setSlot, lookupSlot]
+  | cons kv rest ih =>
+    obtain ⟨k, w⟩ := kv
+    by_cases h : (k == n) = true <;> simp [setSlot, lookupSlot, h, ih]
+
+theorem lookupSlot_setSlot_ne (n m : String) (x : PyVal) (slots : List (String × PyVal)) (hne : m ≠ n) :
+    lookupSlot m (setSlot n x slots) = lookupSlot m slots := by
+  induction slots with
+  | nil => simp [setSlot, lookupSlot]; intro h; exact hne h.symm
+  | cons kv rest ih =>
+    obtain ⟨k, w⟩ := kv
+    by_cases h : (k == n) = true
+    · have : k = n := by simpa using h
+      subst this
+      have : ¬ (k = m) := fun e => hne e.symm
+      simp [setSlot, lookupSlot, h, this]
+    · by_cases h2 : (k == m) = true <;> simp [setSlot, lookupSlot, h, h2, ih]
+
+theorem lookupSlot_none_of_not_mem (n : String) (slots : List (String × PyVal))
+    (h : (slots.map (·.1)).contains n = false) : lookupSlot n slots = none := by
+  induction slots with
+  | nil => simp [lookupSlot]
+  | cons kv rest ih =>
+    obtain ⟨k, w⟩ := kv
+    simp at h
+    have hk : (k == n) = false := by simp; intro e; exact h.1 e.symm
+    simp [lookupSlot, hk]
+    apply ih
+    simp; exact h.2
+
+theorem lookupSlot_delSlot (n : String) (slots : List (String × PyVal))
+    (h : nodupS (slots.map (·.1)) = true) : lookupSlot n (delSlot n slots) = none := by
+  induction slots with
+  | nil => simp [delSlot, lookupSlot]
+  | cons kv rest ih =>
+    obtain ⟨k, w⟩ := kv
+    simp [nodupS] at h
+    by_cases hk : (k == n) = true
+    · have : k = n := by simpa using hk
+      subst this
+      simp [delSlot]
+      apply lookupSlot_none_of_not_mem
+      simp; exact h.1
+    · simp [delSlot, hk, lookupSlot]
+      exact ih h.2
+
+theorem lookupSlot_delSlot_ne (n m : String) (slots : List (String × PyVal)) (hne : m ≠ n) :
+    lookupSlot m (delSlot n slots) = lookupSlot m slots := by
+  induction slots with
+  | nil => simp [delSlot]
+  | cons kv rest ih =>
+    obtain ⟨k, w⟩ := kv
+    by_cases h : (k == n) = true
+    · have : k = n := by simpa using h
+      subst this
+      have : (k == m) = false := by simp; exact fun e => hne e.symm
+      simp [delSlot, lookupSlot, this]
+    · by_cases h2 : (k == m) = true <;> simp [delSlot, lookupSlot, h, h2, ih]
+
+theorem keys_delSlot_sub (n : String) (slots : List (String × PyVal)) (m : String) :
+    ((delSlot n slots).map (·.1)).contains m = true → (slots.map (·.1)).contains m = true := by
+  induction slots with
+  | nil => simp [delSlot]
+  | cons kv rest ih =>
+    obtain ⟨k, w⟩ := kv
+    by_cases h : (k == n) = true
+    · simp [delSlot, h]; intro a b; exact Or.inr ⟨a, b⟩
+    · simp [delSlot, h] at ih ⊢
+      grind
+
+theorem nodupS_delSlot (n : String) (slots : List (String × PyVal))
+    (h : nodupS (slots.map (·.1)) = true) : nodupS ((delSlot n slots).map (·.1)) = true := by
+  induction slots with
+  | nil => simp [delSlot, nodupS]
+  | cons kv rest ih =>
+    obtain ⟨k, w⟩ := kv
+    simp [nodupS] at h
+    by_cases hk : (k == n) = true
+    · simp [delSlot, hk]; exact h.2
+    · simp [delSlot, hk, nodupS]
+      refine ⟨?_, ih h.2⟩
+      intro x hx
+      have := keys_delSlot_sub n rest k (by simp; exact ⟨x, hx⟩)
+      simp at this
+      obtain ⟨y, hy⟩ := this
+      exact h.1 y hy
+
+theorem keys_setSlot_sub (n : String) (x : PyVal) (slots : List (String × PyVal)) (m : String) :
+    ((setSlot n x slots).map (·.1)).contains m = true → m = n ∨ (slots.map (·.1)).contains m = true := by
+  induction slots with
+  | nil => simp [setSlot]
+  | cons kv rest ih =>
+    obtain ⟨k, w⟩ := kv
+    by_cases h : (k == n) = true
+    · simp [setSlot, h]; grind
+    · simp [setSlot, h] at ih ⊢
+      grind
+
+theorem nodupS_setSlot (n : String) (x : PyVal) (slots : List (String × PyVal))
+    (h : nodupS (slots.map (·.1)) = true) : nodupS ((setSlot n x slots).map (·.1)) = true := by
+  induction slots with
+  | nil => simp [setSlot, nodupS]
+  | cons kv rest ih =>
+    obtain ⟨k, w⟩ := kv
+    simp [nodupS] at h
+    by_cases hk : (k == n) = true
+    · simp [setSlot, hk, nodupS]; exact h
+    · simp [setSlot, hk, nodupS]
+      refine ⟨?_, ih h.2⟩
+      intro y hy
+      have := keys_setSlot_sub n x rest k (by simp; exact ⟨y, hy⟩)
+      simp at this hk
+      rcases this with e | ⟨z, hz⟩
+      · exact hk e
+      · exact h.1 z hz
+
+/-! ### Attribute.__set__ -/
+
+theorem attrSet_unfold (E : Ext) (env : Env) (f : FieldDef) (slots : List (String × PyVal)) (x : PyVal) :
+    attrSet E env f slots x =
+      if f.attrNullable && isNoneV x then .ok (delSlot f.name slots)
+      else if f.attrUserDefined then (validateTypeOnly env f.ty x).map fun _ => setSlot f.name x slots
+      else (validate E env f.ty x).map fun x' => setSlot f.name x' slots := by
+  cases x <;> simp [attrSet, isNoneV, bind, Except.bind, pure, Except.pure, Except.map] <;> rfl
+
+/-- the slots after a successful assignment -/
+def slotsAfter (E : Ext) (f : FieldDef) (slots : List (String × PyVal)) (x : PyVal) : List (String × PyVal) :=
+  if f.attrNullable && isNoneV x then delSlot f.name slots else setSlot f.name (storedOf E f x) slots
+
+theorem attrSet_spec (E : Ext) (env : Env) (f : FieldDef) (slots : List (String × PyVal)) (x : PyVal) :
+    (fieldSat E env f x = true ∧ attrSet E env f slots x = .ok (slotsAfter E f slots x)) ∨
+    (fieldSat E env f x = false ∧ IsVerr (attrSet E env f slots x)) ∨
+    (fieldSat E env f x = false ∧ f.attrUserDefined = true ∧ isUserTy f.ty = false ∧
+      attrSet E env f slots x = .error (.crash "AttributeError")) := by
+  rw [attrSet_unfold]
+  cases hN : (f.attrNullable && isNoneV x)
+  · cases hU : f.attrUserDefined
+    · rcases validate_spec E env f.ty x with ⟨a, b⟩ | ⟨a, b⟩
+      · left
+        simp [fieldSat, hN, hU, a, b, slotsAfter, storedOf, Except.map]
+      · right; left
+        obtain ⟨m, hm⟩ := b.exists
+        simp [fieldSat, hN, hU, a, hm, Except.map]
+    · rcases validateTypeOnly_eq env f.ty x with ⟨a, b⟩ | ⟨a, c, b⟩ | ⟨a, c, b⟩
+      · left
+        simp [fieldSat, hN, hU, a, b, slotsAfter, storedOf, Except.map]
+      · right; left
+        obtain ⟨m, hm⟩ := b.exists
+        simp [fieldSat, hN, hU, a, hm, Except.map]
+      · right; right
+        simp [fieldSat, hN, hU, a, c, b, Except.map]
+  · left
+    simp [fieldSat, hN, slotsAfter]
+
+theorem attrGet_slotsAfter (E : Ext) (f : FieldDef) (slots : List (String × PyVal)) (x : PyVal)
+    (hnd : nodupS (slots.map (·.1)) = true) :
+    attrGet f (slotsAfter E f slots x) = some (storedOf E f x) := by
+  by_cases hN : (f.attrNullable && isNoneV x) = true
+  · have h1 : f.attrNullable = true := by simp at hN; exact hN.1
+    have h2 : x = .none := by
+      have : isNoneV x = true := by simp at hN; exact hN.2
+      cases x <;> simp [isNoneV] at this ⊢
+    subst h2
+    have : storedOf E f .none = .none := by
+      simp [storedOf]; cases f.attrUserDefined <;> simp; cases f.ty <;> simp [normOf]
+    simp [slotsAfter, isNoneV, attrGet, lookupSlot_delSlot _ _ hnd, h1, this]
+  · simp [slotsAfter, hN, attrGet, lookupSlot_setSlot]
+
+/-- without the uniqueness of slot names the read after a *set* (not an unset) is still right -/
+theorem attrGet_slotsAfter_set (E : Ext) (f : FieldDef) (slots : List (String × PyVal)) (x : PyVal)
+    (hN : (f.attrNullable && isNoneV x) = false) :
+    attrGet f (slotsAfter E f slots x) = some (storedOf E f x) := by
+  simp [slotsAfter, hN, attrGet, lookupSlot_setSlot]
+
+theorem nodupS_slotsAfter (E : Ext) (f : FieldDef) (slots : List (String × PyVal)) (x : PyVal)
+    (hnd : nodupS (slots.map (·.1)) = true) : nodupS ((slotsAfter E f slots x).map (·.1)) = true := by
+  unfold slotsAfter
+  split
+  · exact nodupS_delSlot _ _ hnd
+  · exact nodupS_setSlot _ _ _ hnd
+
+theorem lookupSlot_slotsAfter_ne (E : Ext) (f : FieldDef) (slots : List (String × PyVal)) (x : PyVal) (m : String)
+    (hne : m ≠ f.name) : lookupSlot m (slotsAfter E f slots x) = lookupSlot m slots := by
+  unfold slotsAfter
+  split
+  · exact lookupSlot_delSlot_ne _ _ _ hne
+  · exact lookupSlot_setSlot_ne _ _ _ _ hne
+
+/-! ### Union.__init__ -/
+
+theorem mkUnion_unfold (E : Ext) (env : Env) (cls tag : String) (x : PyVal) (u : UnionDef) (hu : env.union? cls = some u) :
+    mkUnion E env cls tag x =
+      match u.ctorValidator tag with
+      | none => verr "invalid tag"
+      | some t =>
+        if !t.flags.nullable && isVoidT t then
+          (if isNoneV x then .ok (.union cls tag .none) else verr "void member must have None value")
+        else if !t.flags.nullable && isUserTy t then (validateTypeOnly env t x).map fun _ => .union cls tag x
+        else (validate E env t x).map fun _ => .union cls tag x := by
+  simp only [mkUnion, hu]
+  cases u.ctorValidator tag with
+  | none => rfl
+  | some t =>
+    cases t <;> cases x <;> simp [isVoidT, isUserTy, isNoneV, bind, Except.bind, pure, Except.pure, Except.map] <;> rfl
+
+theorem validateTypeOnly_good (env : Env) (t : PTy) (v : PyVal) (ht : isUserTy t = true) :
+    Good (typeOnlyB env t v) (validateTypeOnly env t v) () := by
+  rcases validateTypeOnly_eq env t v with ⟨a, b⟩ | ⟨a, c, b⟩ | ⟨a, c, b⟩
+  · exact Or.inl ⟨a, b⟩
+  · exact Or.inr ⟨a, b⟩
+  · rw [ht] at c; cases c
+
+theorem mkUnion_good (E : Ext) (env : Env) (cls tag : String) (x : PyVal) (u : UnionDef) (hu : env.union? cls = some u)
+    (t : PTy) (hc : u.ctorValidator tag = some t) :
+    Good (memberSat E env t x) (mkUnion E env cls tag x) (.union cls tag x) := by
+  rw [mkUnion_unfold E env cls tag x u hu]
+  simp only [hc]
+  unfold memberSat
+  by_cases hV : (!t.flags.nullable && isVoidT t) = true
+  · simp only [hV, if_true]
+    cases hx : isNoneV x
+    · right; simp
+    · left
+      have : x = .none := by cases x <;> simp [isNoneV] at hx ⊢
+      subst this
+      simp
+  · simp only [hV, if_false]
+    by_cases hS : (!t.flags.nullable && isUserTy t) = true
+    · simp only [hS, if_true]
+      have hut : isUserTy t = true := by simp at hS; exact hS.2
+      exact (validateTypeOnly_good env t x hut).map _
+    · simp only [hS, if_false]
+      have := (validate_spec E env t x).map fun _ => PyVal.union cls tag x
+      exact this
+
+theorem mkUnion_none (E : Ext) (env : Env) (cls tag : String) (x : PyVal) (u : UnionDef) (hu : env.union? cls = some u)
+    (hc : u.ctorValidator tag = none) : IsVerr (mkUnion E env cls tag x) := by
+  rw [mkUnion_unfold E env cls tag x u hu]
+  simp [hc]
 
 end StoneVerif.Rt.V8
